@@ -1,5 +1,5 @@
 CFG = {
-    "modules": ["Parsley.Props.C02", "Parsley.Props.C16", "Parsley.Props.C02Struct", "Parsley.Lemmas.SpellEncoder", "Parsley.Props.C02Encoder"],
+    "modules": ["Parsley.Props.C02", "Parsley.Props.C16", "Parsley.Props.C02Struct", "Parsley.Lemmas.SpellEncoder", "Parsley.Props.C02Encoder", "Parsley.Props.C02Wide"],
     "theorems": ["Parsley.C02.name_window_decoder_eq", "Parsley.C02.name_spelling_decodes", "Parsley.C02.name_roundtrip", "Parsley.C02.integer_spec", "Parsley.C02.integer_roundtrip",
                  "Parsley.C02.hexstring_spec", "Parsley.C02.litstring_roundtrip", "Parsley.C02.litLoop_balanced",
                  "Parsley.C02.real_spec", "Parsley.C02.ws_loop_eq_skip", "Parsley.C02.skipWs_run", "Parsley.C02.wsRun_run",
@@ -19,19 +19,28 @@ CFG = {
                  "Parsley.C02.Spells.mono", "Parsley.C02.Spells.starts_regular", "Parsley.C02.Spells.ends_regular",
                  "Parsley.C02.sepFor_run", "Parsley.C02.follows_canon", "Parsley.C02.genContexts_follow",
                  "Parsley.C02.generator_case_parses", "Parsley.C02.dup_key_witness", "Parsley.C02.nulKey_not_last_witness",
-                 "Parsley.C02.null_value_witness", "Parsley.C02.ref_range_witness"],
+                 "Parsley.C02.null_value_witness", "Parsley.C02.ref_range_witness",
+                 # number tokens of any size: the dispatcher computes the spec NumLit.denote
+                 "Parsley.C02.number_token_denotes", "Parsley.C02.spell_parse_wide", "Parsley.C02.numberOrRef_wide",
+                 "Parsley.C02.numberOrRef_overflow", "Parsley.C02.parseInternal_int_range", "Parsley.C02.denote_wide_not_int"],
     "partial": {
                 "(depth)": "the depth hypothesis of spell_parse is on the SPELLING depth d (index of `Spells`), not on depth(v): a dropped null-valued "
                 "entry still needs one nesting level (`<</A null>>` has value depth 1 but is rejected at cur+1 = max by the real parser and the model); "
                 "Spells.depth_le proves depth v <= d."},
     "n": {"quick": 4000, "thorough": 150000},
     "exhaustive": {"quick": False, "thorough": False},
-    "rule": "random values (depth <= 4; boundary integers, reals, names/strings over delimiters, escapes and high bytes, references, arrays, "
+    "rule": "corpus (26 hand-built number tokens); point-free number tokens of any size (oracle Spec/NumLit.lean: Integer inside -2^63..2^63-1, the real value/1 up to +-(2^127-1), not an object beyond; "
+            "never an Integer of the reduced value): 72 literals k*2^64+t and -(k*2^64-t) (k in 1,2,3,2^31,2^62,2^63-1; t in 0,1,-1,5,42,-17) + 34 boundary literals (+-2^31, +-(2^63-1), +-2^63, +-(2^63+1), +-(2^64-1), +-2^64, "
+            "+-10^19, +-10^30, +-(2^127-1), +-2^127, +-(2^128+-5), +-10^39), with `-`/`+`/no sign, 0-2 leading zeros, 4 leading whitespace runs, each bare before the generator's following contexts "
+            "(quick: 4 of 15 + ` 2 R` + ` 0 R`; thorough: all), as array element, single array element, dictionary value, array inside a dictionary, and - outside i64 - as object number (`<tok> 0 R` in an "
+            "array / dictionary: rejected) and generation (`5 <tok> R`: the Integer 5; in an array: rejected) of a would-be reference; "
+            "random values (depth <= 4; boundary integers, reals, names/strings over delimiters, escapes and high bytes, references, arrays, "
             "dictionaries) x random encoder choices (whitespace/comment runs, #hh vs raw and hex case, literal vs hex strings, hex whitespace, "
             "odd-digit shorthand, signs, leading zeros, entry order, null-valued entries) x 15 following contexts x depth slack 0..2; one "
             "single-byte mutation/truncation and one duplicate-key spelling per value. non-trivial = spelling of >= 4 bytes (distinct by case hash)",
     "trusted_base": COMMON_TB + ["modelled, not verified: ParseBuffer primitives as list functions; the relational spec `Spells` defines what a legal spelling is (the encoder `spell` used as generator is proved to produce legal spellings on its whole domain `wfDeep`; every generated value is checked to lie in `wfDeep` at generation time and at build time)"],
-    "assumptions": ["integers range over -(2^63-1)..2^63-1 (i64::MIN has no accepted spelling); reals are (numerator, 10^k) with k >= 1, unnormalised, as the parser represents them",
+    "assumptions": ["integers of the value type handed to the encoder range over -(2^63-1)..2^63-1 (IntegerP has no spelling for i64::MIN; through parse_pdf_obj `-9223372036854775808` does parse, as the Integer i64::MIN, "
+                    "by the real-number path: parseInternal_int_range / number_token_denotes and the `lit` cases); a point-free token outside the i64 range is the real value/1 (spell_parse_wide), beyond i128 not an object; reals are (numerator, 10^k) with k >= 1, unnormalised, as the parser represents them",
                     "string values are the raw bodies (the parser does not unescape)",
                     "domain of the encoder theorems (spell_is_Spells, spell_parse_encoder*): the decidable predicate `wfDeep` of Spec/SpellingWF.lean. It excludes exactly: "
                     "integers outside +-(2^63-1); reals with numerator >= 2^120 or a denominator that is not 10^k (1<=k<30); NUL bytes in names/keys; comments and streams; "
